@@ -81,11 +81,15 @@ def failing_snippet(rng, uid):
         'fn ro%d(n) { return ro%d(n + 1); }\ntry { ro%d(0); } catch e { throw e; }' % (uid, uid, uid),
         'fn ro%d(n) { return ro%d(n + 1); }\nfn wr%d() { try { return ro%d(0); } finally { var pad = [1]; } }\nwr%d();' % (uid, uid, uid, uid, uid),
         'fn ro%d(n) { return ro%d(n + 1); }\nFiber.new(|| { try { ro%d(0); } finally { print("fiber-fin%d"); } }).call();' % (uid, uid, uid, uid),
+        # the import of a module that does not COMPILE, at top level and inside a function (nothing of it may stay registered: a later import
+        # of the same path is the same compile error again)
+        'import "synmod";',
+        'fn is%d() { import "synmod"; }\nis%d();' % (uid, uid),
     ]
     return d, d + fails[k] + "\n", k
 
 
-N_FAIL_KINDS = 26
+N_FAIL_KINDS = 28
 
 
 def ok_snippet(rng, uid, defined):
@@ -241,6 +245,7 @@ FIRST_PROBES = [
     'for x in [1, 2] { print(x); }\nprint((0..3).iter().map(|v| v * 2).collect());\n',
     'import "okmod";\nprint(okmod.inc());\n',
     'var big = []; var i = 0; while i < 300 { big.push([i]); i = i + 1; } print(big.len());\n',
+    'try { import "synmod"; } catch e { print(e.context.split("\\n")[0]); }\ntry { import "nosuch"; } catch e2 { print(type(e2)); }\n',
 ]
 
 
